@@ -15,13 +15,14 @@ import (
 	"github.com/f1bonacc1/process-compose/src/pclog"
 	"github.com/gorilla/websocket"
 	"github.com/rs/zerolog"
+	"github.com/rs/zerolog/log"
 	"pgregory.net/rapid"
 
 	"verif/harness/known"
 	"verif/harness/pbt"
 )
 
-func init() { zerolog.SetGlobalLevel(zerolog.Disabled) }
+func init() { log.Logger = zerolog.Nop() }
 
 // ---------------------------------------------------------------- reference window
 
